@@ -67,8 +67,6 @@ def observe (st : St) : String :=
 def trigNames (st : St) (op : Op) : List String :=
   (if trigCellsName st op then ["cells-name"] else []) ++
   (if trigDoubleSpec st op then ["double-spec"] else []) ++
-  (if trigRebindSame st op then ["rebind-same"] else []) ++
-  (if trigSheetNone st op then ["sheet-setter"] else []) ++
   (if trigDirtyDelete st op then ["del-space"] else []) ++
   (if trigUpdateOnto st op then ["update-onto-referenced"] else [])
 
